@@ -1,4 +1,5 @@
-// hC09: version chains through chain33's MVCC layer (common/db/mvcc.go, mvcc_iter.go).
+// hC09: version chains through chain33's MVCC layer (common/db/mvcc.go, mvcc_iter.go), and block
+// histories through the kvmvcc plugin and StateDB (blocks.go).
 //
 // One case = one chain: AddMVCC per version (kvlist written to the store the way
 // blockchain/blockstore.go writes local KVs: nil value -> Delete, else Set), a dump of
@@ -359,12 +360,12 @@ func runScenario(o *hlib.Out, kind string, sc Scenario, tmp string) {
 	for i, v := range sc.QVers {
 		qv[i] = hlib.Z(v)
 	}
-	term := hlib.App("CChain",
+	term := "(CC " + hlib.App("CChain",
 		hlib.List(addTerms), nlist(addRes), keysSum(dump0),
 		hlib.ListHx(qkeys), hlib.List(qv), nlist(reads0),
 		hlib.List(trashTerms),
 		hlib.N(delRes), keysSum(dumpDel), nlist(readsDel), hlib.N(del2Res),
-		hlib.N(iterDelRes), iterList0, iterListDel)
+		hlib.N(iterDelRes), iterList0, iterListDel) + ")"
 	// non-trivial: at least two versions and some key written in two different versions
 	seen := map[string]int64{}
 	nontrivial := false
@@ -551,6 +552,11 @@ func main() {
 	}
 	defer os.RemoveAll(tmp)
 	if opts.Replay != "" {
+		var bsc BScenario
+		if err := hlib.ReplayInput(opts.Replay, &bsc); err == nil && bsc.Blocks {
+			runBlocks(o, "replay", bsc, tmp)
+			return
+		}
 		var sc Scenario
 		if err := hlib.ReplayInput(opts.Replay, &sc); err != nil {
 			panic(err)
@@ -592,4 +598,7 @@ func main() {
 		runScenario(o, "badadds-guarded-"+be, genScenario(r, true, false, true, be, 7, 6), tmp)
 		runScenario(o, "emptyvals-"+be, genScenario(r, i%2 == 0, true, i%3 == 0, be, 7, 6), tmp)
 	}
+	// block histories through the kvmvcc plugin and StateDB (blocks.go); own generator so that the
+	// chain streams above stay what they were
+	blockStreams(o, hlib.NewRng(opts.Seed+0x9e37), tmp, mult)
 }
